@@ -61,6 +61,9 @@ pub struct Call {
     /// floating-point values, among them both infinities (which are values like any other; only NaN is not)
     #[aggregate(strategy = Distribution)]
     fdist: f64,
+    /// small values, zero among them, in the default (bucketed) histogram: conserved by count
+    #[aggregate(strategy = Histogram<u64>)]
+    small: u64,
 }
 
 #[aggregate]
@@ -120,6 +123,9 @@ pub struct Plain {
     /// floating-point values, among them both infinities (which are values like any other; only NaN is not)
     #[aggregate(strategy = Distribution)]
     fdist: f64,
+    /// small values, zero among them, in the default (bucketed) histogram: conserved by count
+    #[aggregate(strategy = Histogram<u64>)]
+    small: u64,
     /// an aggregatable child, merged field by field
     #[aggregate(strategy = Flatten)]
     #[metrics(flatten)]
@@ -136,7 +142,7 @@ fn mk_plain(i: &Input) -> Plain {
     for _ in 0..(1 + i.id % 3) {
         multi.add_value(i.weight % 3);
     }
-    Plain { weight: i.weight, last: i.last, ident: i.id, multi, opt_last: opt_of(i.last), opt_sum: opt_sum_of(i), opt_keep: opt_of(i.last), dist: i.weight % 5, fdist: fdist_of(i), child: child_of(i) }
+    Plain { weight: i.weight, last: i.last, ident: i.id, multi, opt_last: opt_of(i.last), opt_sum: opt_sum_of(i), opt_keep: opt_of(i.last), dist: i.weight % 5, fdist: fdist_of(i), small: i.weight % 4, child: child_of(i) }
 }
 
 /// an aggregate embedded in a parent unit-of-work entry (closed together with it)
@@ -379,6 +385,14 @@ fn emit_from(no: u32, t: &TestEntry, raw: bool) -> AK {
             extra.insert(name.to_string(), m.as_u64());
         }
     }
+    if let Some(m) = t.metrics.get("small") {
+        // (bucketed: only the number of observations is exact)
+        let n: u64 = m.distribution.iter().map(|o| match o {
+            Observation::Repeated { occurrences, .. } => *occurrences,
+            _ => 1,
+        }).sum();
+        extra.insert("small_n".to_string(), n);
+    }
     let dist = t.metrics.get("dist").map(|m| obs_pairs(&m.distribution)).unwrap_or_default();
     // (value as text, occurrences) of the floating-point distribution
     let fdist: Vec<(String, u64)> = t.metrics.get("fdist").map(|m| m.distribution.iter().map(|o| match o {
@@ -446,7 +460,7 @@ pub struct AggRun {
 }
 
 fn mk_call(i: &Input) -> Call {
-    Call { endpoint: i.key.clone(), weight: i.weight, last: i.last, ident: i.id, tag: format!("t{}", i.last), opt_last: opt_of(i.last), opt_sum: opt_sum_of(i), opt_keep: opt_of(i.last), dist: i.weight % 5, fdist: fdist_of(i) }
+    Call { endpoint: i.key.clone(), weight: i.weight, last: i.last, ident: i.id, tag: format!("t{}", i.last), opt_last: opt_of(i.last), opt_sum: opt_sum_of(i), opt_keep: opt_of(i.last), dist: i.weight % 5, fdist: fdist_of(i), small: i.weight % 4 }
 }
 
 enum Target {
@@ -829,6 +843,32 @@ pub fn check_c10(plan: &Value, run: &AggRun) -> Option<Violation> {
         }
     }
     let merge_pos: HashMap<u64, u64> = merge_order.iter().map(|(s, id)| (*id, *s)).collect();
+    // "keep-last fields equal the last input": the order in which inputs are merged respects the order in which they were
+    // handed in - an input whose send had returned before another send began is merged first (a mutex sink merges inside
+    // the send; a worker's channel is first-in first-out). Overlapping sends may be merged either way.
+    {
+        let mut by_ret: Vec<(u64, u64)> = send_ret.iter().filter(|(id, _)| merge_pos.contains_key(*id)).map(|(id, r)| (*r, *id)).collect();
+        by_ret.sort();
+        // (largest merge position among the inputs whose send has returned, as the returns go by)
+        let mut begins: Vec<(u64, u64)> = send_inv.iter().filter(|(id, _)| merge_pos.contains_key(*id)).map(|(id, b)| (*b, *id)).collect();
+        begins.sort();
+        let mut i = 0;
+        let mut max_prev: Option<(u64, u64)> = None;
+        for (b, id) in &begins {
+            while i < by_ret.len() && by_ret[i].0 < *b {
+                let p = merge_pos[&by_ret[i].1];
+                if max_prev.map(|m| p > m.0).unwrap_or(true) {
+                    max_prev = Some((p, by_ret[i].1));
+                }
+                i += 1;
+            }
+            if let Some((p, earlier)) = max_prev {
+                if merge_pos[id] < p {
+                    return Some(Violation::new("merged_out_of_order", format!("input {earlier} had been handed to the sink (the call had returned) before input {id} was, but was merged after it: keep-last fields then report the wrong input")));
+                }
+            }
+        }
+    }
     let is_worker = matches!(kind, "worker" | "worker_tee");
     // fault `user_merge_panics`: once it fired, the sink has failed *loudly* (poisoned lock / dead worker: later
     // merges, flush requests and the close panic). What returned normally is still held to the property: a
@@ -851,6 +891,7 @@ pub fn check_c10(plan: &Value, run: &AggRun) -> Option<Violation> {
         let mut seen: HashMap<u64, usize> = HashMap::new();
         for (ei, em) in emitted.iter().enumerate().filter(|(_, e)| e.sink == *sink) {
             let mut wsum = 0u64;
+            let mut n_inputs = 0u64;
             let mut osum = 0u64; // sum of the optional values that were present
             let mut latest_some: Option<(u64, u64)> = None; // (merge seq, value) of the last *present* optional value
             let mut want_dist: BTreeMap<u64, u64> = BTreeMap::new();
@@ -884,6 +925,7 @@ pub fn check_c10(plan: &Value, run: &AggRun) -> Option<Violation> {
                     }
                 }
                 wsum += inp.weight;
+                n_inputs += 1;
                 // (spelled out here, independently of the constructor: present iff `last` is even)
                 osum += if inp.last % 2 == 0 { inp.weight } else { 0 };
                 *want_dist.entry(inp.weight % 5).or_insert(0) += 1;
@@ -917,6 +959,11 @@ pub fn check_c10(plan: &Value, run: &AggRun) -> Option<Violation> {
                 }
                 if *keying == "none" && em.extra.get("cw") != Some(&(3 * wsum)) {
                     return Some(Violation::new("sum_mismatch", format!("aggregate {:?} (sink {sink}) reports cw={:?} (summed field of a flattened child), the inputs it contains sum to {}", em.keys, em.extra.get("cw"), 3 * wsum)));
+                }
+                if let Some(n) = em.extra.get("small_n") {
+                    if *n != n_inputs {
+                        return Some(Violation::new("distribution_field_miscounted", format!("aggregate {:?} (sink {sink}): the bucketed histogram field counts {n} observations, the aggregate contains {n_inputs} inputs with one (small, possibly zero) value each", em.keys)));
+                    }
                 }
                 let want_dist: Vec<(u64, u64)> = want_dist.into_iter().collect();
                 if em.dist != want_dist {
